@@ -1,9 +1,15 @@
 #!/bin/bash
 # git wrapper used as ServerConfig::Git::git_path by the verification harness: fails the n-th
 # invocation of chosen git sub-commands, before or after running them.
-# Control file ($GITFAULT_CTL): one rule per line "<subcommand> <n> <before|after>"; a rule is
-# consumed when it fires.
+# Control file ($GITFAULT_CTL): one rule per line "<subcommand> <n> <before|after|stop|stopafter>";
+# a rule is consumed when it fires.  "stop" / "stopafter" emulate a process that stops at that
+# command (before / after it ran): from then on EVERY git command fails until the harness, which
+# then discards the server object as a restart would, removes $GITFAULT_CTL.dead.
 ctl="${GITFAULT_CTL:-/nonexistent}"
+if [ -f "$ctl.dead" ]; then
+  echo "injected stop: the process is gone (git $1)" >&2
+  exit 1
+fi
 # Backdating: while the file $GITFAULT_CTL.backdate exists, commits are made with the committer
 # and author date it holds (seconds since the epoch), so that the backend's retention rule
 # (age of the commit that last touched a version file) can be exercised without waiting 180 days.
@@ -25,7 +31,8 @@ if [ -f "$ctl" ]; then
         grep -v -x "$sub $n $when" "$ctl" > "$ctl.tmp"; mv "$ctl.tmp" "$ctl"
         rm -f "$cnt_file"
         [ -s "$ctl" ] || rm -f "$ctl"
-        if [ "$when" = "after" ]; then git "$@" >/dev/null 2>&1; fi
+        if [ "$when" = "after" ] || [ "$when" = "stopafter" ]; then git "$@" >/dev/null 2>&1; fi
+        if [ "$when" = "stop" ] || [ "$when" = "stopafter" ]; then : > "$ctl.dead"; fi
         echo "injected failure of git $1" >&2
         exit 1
       fi
